@@ -5,8 +5,8 @@
   rig the harness uses) is given ONE request or notification whose handler behaves as each
   outcome class in turn, and what the peer and the session's public counters then show is
   recorded: the reply (result / error code + whose message), the rise of `errors` and of `cost`,
-  whether the connection was closed, whether the excessive-cost hook ran, whether the session
-  stopped serving without closing.  Which `except` clause catches what, whether `send_result`
+  whether the connection was closed, whether the excessive-cost hook ran, whether the transport
+  was aborted (message processing ended abnormally: repair F34).  Which `except` clause catches what, whether `send_result`
   is guarded, what `encode_payload` does with the three kinds of unencodable values are all
   consequences visible in this table - so reordering independent clauses, merging or splitting
   them, extracting helpers or wrapping the body changes nothing here, while a change of
@@ -53,7 +53,7 @@ def _rows(repo):
                      'reply': H.canon_reply(rep) if rep is not None else None,
                      'errors': errors, 'cost': int(round(cost)), 'closed': bool(obs['closed']),
                      'hook': obs['hook'] > 0,
-                     'escaped': obs['probe'] is not True and not obs['closed']})
+                     'aborted': bool(obs['aborted'])})
     return rows
 
 
@@ -179,7 +179,7 @@ def render(f):
         sep = ',' if n + 1 < len(f['table']) else ''
         note = f'   -- {r["note"]}' if r['note'] else ''
         rows.append(f'  ({b(r["kind"] == "R")}, {lean_outcome(r["outcome"])}, '
-                    f'{{ escaped := {b(r["escaped"])}, reply := {lean_reply(r["reply"])}, '
+                    f'{{ aborted := {b(r["aborted"])}, reply := {lean_reply(r["reply"])}, '
                     f'errors := {max(0, r["errors"])}, cost := {max(0, r["cost"])}, closed := {b(r["closed"])}, '
                     f'hook := {b(r["hook"])} }}){sep}{note}')
     return (
